@@ -194,3 +194,53 @@ Proof.
   induction t using stree_ind2; simpl; auto. intros E. apply orb_false_iff in E as [-> E]. simpl.
   induction H; simpl in *; auto. apply orb_false_iff in E as [E1 E2]. rewrite H by auto. simpl. auto.
 Qed.
+
+(* ---- the verdict after a removal is never MORE permissive than that of the fresh element with the remaining children ---- *)
+(* in a state reached by adds only, a sequence is marked active exactly when it holds something *)
+Fixpoint Exact (s:sst) : Prop :=
+  match s with LeafS _ _ _ _ => True
+             | NodeS o a k => (a = true -> nonempty s = true) /\ (fix all (l:list sst) : Prop := match l with [] => True | x :: t => Exact x /\ all t end) k end.
+Lemma Exact_node o a k : Exact (NodeS o a k) <-> ((a = true -> nonempty (NodeS o a k) = true) /\ Forall Exact k).
+Proof.
+  simpl. assert (E: forall l, (fix all (l:list sst) : Prop := match l with [] => True | x :: t => Exact x /\ all t end) l <-> Forall Exact l).
+  { induction l; simpl; split; intros H; auto. - destruct H; constructor; tauto. - inversion H; subst; tauto. }
+  rewrite E. tauto.
+Qed.
+Lemma Exact_init t : Exact (init t).
+Proof.
+  induction t using stree_ind2; simpl; auto. split; [discriminate|]. induction H; simpl; auto.
+Qed.
+Lemma add_nonempty c a s s' : add c a s = Some s' -> nonempty s' = true.
+Proof.
+  revert s'. induction s using sst_ind2; intros s' E.
+  - simpl in E. destruct (Pos.eqb a s && negb (full mx (length it)))%bool; [|discriminate]. injection E as <-. simpl. rewrite app_length. simpl.
+    destruct (length it + 1) eqn:L; [lia|reflexivity].
+  - rewrite add_node in E. destruct (add_list c a k) as [k'|] eqn:EL; [|discriminate]. injection E as <-. simpl.
+    revert k' EL. induction H as [|x k Hx Hk IH]; intros k' EL; simpl in EL; [discriminate|].
+    destruct (add c a x) as [x'|] eqn:Ex.
+    + injection EL as <-. simpl. rewrite (Hx _ eq_refl). reflexivity.
+    + destruct (add_list c a k) as [k2|]; [|discriminate]. injection EL as <-. simpl. rewrite (IH _ eq_refl). apply orb_true_r.
+Qed.
+Lemma add_Exact c a s s' : add c a s = Some s' -> Exact s -> Exact s'.
+Proof.
+  revert s'. induction s using sst_ind2; intros s' E X.
+  - simpl in E. destruct (Pos.eqb a s && negb (full mx (length it)))%bool; [|discriminate]. injection E as <-. simpl. auto.
+  - pose proof (add_nonempty c a _ _ E) as NE. rewrite add_node in E. destruct (add_list c a k) as [k'|] eqn:EL; [|discriminate]. injection E as <-.
+    apply Exact_node in X as [_ Xk]. apply Exact_node. split; [intros _; exact NE|].
+    clear NE. revert k' EL. induction H as [|x k Hx Hk IH]; intros k' EL; simpl in EL; [discriminate|]. inversion Xk as [|? ? Xx Xr]; subst.
+    destruct (add c a x) as [x'|] eqn:Ex.
+    + injection EL as <-. constructor; auto.
+    + destruct (add_list c a k) as [k2|]; [|discriminate]. injection EL as <-. constructor; auto.
+Qed.
+Lemma addw_Exact w : forall n s s', addw w n s = Some s' -> Exact s -> Exact s'.
+Proof.
+  induction w as [|a w IH]; intros n s s' E X; simpl in E; [injection E as <-; auto|].
+  destruct (add n a s) as [s1|] eqn:E1; [|discriminate]. eapply IH; eauto. eapply add_Exact; eauto.
+Qed.
+Lemma nonempty_erase s1 s2 : erase s1 = erase s2 -> nonempty s1 = nonempty s2.
+Proof.
+  revert s2. induction s1 using sst_ind2; intros [b' mn' mx' it'|o' a' k'] E; simpl in E; try discriminate.
+  - injection E as _ _ _ L. simpl. rewrite L. reflexivity.
+  - injection E as E. simpl. revert k' E. induction H as [|x k Hx Hk IH]; intros [|y k'] E; simpl in E; try discriminate; auto.
+    injection E as E1 E2. simpl. rewrite (Hx y E1), (IH k' E2). reflexivity.
+Qed.
